@@ -96,3 +96,19 @@ Lemma register_offsets_are_source_constants :
   /\ chan_base true + 15 = gd_RHRB /\ chan_base true + 15 = gd_THRB
   /\ gd_PORT_0 = chan_no false /\ gd_PORT_1 = chan_no true.
 Proof. vm_compute. repeat split. Qed.
+
+(* every status / configuration / command / interrupt-status / interrupt-vector bit and every command code the model
+   and the theorems use is the source's constant of that name *)
+Lemma duart_constants_are_source_constants :
+  (CNF_ETX, CNF_ERX) = (gd_CNF_ETX, gd_CNF_ERX)
+  /\ (STS_RXR, STS_FFL, STS_TXR, STS_TXE, STS_OER, STS_PER, STS_FER, STS_RXB)
+     = (gd_STS_RXR, gd_STS_FFL, gd_STS_TXR, gd_STS_TXE, gd_STS_OER, gd_STS_PER, gd_STS_FER, gd_STS_RXB)
+  /\ (CMD_ERX, CMD_DRX, CMD_ETX, CMD_DTX) = (gd_CMD_ERX, gd_CMD_DRX, gd_CMD_ETX, gd_CMD_DTX)
+  /\ (ISTS_TAI, ISTS_RAI, ISTS_DBA, ISTS_TBI, ISTS_RBI, ISTS_DBB, ISTS_IPC)
+     = (gd_ISTS_TAI, gd_ISTS_RAI, gd_ISTS_DBA, gd_ISTS_TBI, gd_ISTS_RBI, gd_ISTS_DBB, gd_ISTS_IPC)
+  /\ (KEYBOARD_INT, MOUSE_BLANK_INT, TX_INT, RX_INT) = (gd_KEYBOARD_INT, gd_MOUSE_BLANK_INT, gd_TX_INT, gd_RX_INT)
+  /\ (forall c, is_reset_rx c = (Z.land (Z.shiftr c 4) 7 =? gd_CR_RST_RX))
+  /\ (forall c, is_reset_tx c = (Z.land (Z.shiftr c 4) 7 =? gd_CR_RST_TX))
+  /\ (forall c, is_reset_err c = (Z.land (Z.shiftr c 4) 7 =? gd_CR_RST_ERR))
+  /\ (gd_CR_RST_MR, gd_CR_RST_BRK, gd_CR_START_BRK, gd_CR_STOP_BRK) = (1, 5, 6, 7).
+Proof. repeat split; reflexivity. Qed.
